@@ -137,6 +137,10 @@ def check(pid, tier, seed):
     single.append({"name": "readfile-missing", "call": "read", "init": "null", "script": twice(["readfile 1 %s x3d x23" % hx(R + "/nope.conf"), "free 1"])})
     single.append({"name": "readfile-malformed", "call": "read", "init": "null",
                    "script": ["file %s %s" % (hx(R + "/bad.conf"), hx("a=1\n[x\n"))] + twice(["readfile 1 %s x3d x23" % hx(R + "/bad.conf"), "free 1"])})
+    for nm, content in (("pending-comment", "a=1\n# note\n# more\n[x\n"), ("trailing-comment", "a=1\n[x # why\n"), ("comment-then-missing-delim", "# c\nkey value\n"),
+                        ("after-continuation", "a=1 # t\n b # u\n# p\n[]\n")):
+        single.append({"name": "readfile-malformed-" + nm, "call": "read", "init": "null",
+                       "script": ["file %s %s" % (hx(R + "/bad-%s.conf" % nm), hx(content))] + twice(["readfile 1 %s x3d x23" % hx(R + "/bad-%s.conf" % nm), "free 1"])})
     single.append({"name": "readfile-ok", "call": "read", "init": "null",
                    "script": ["file %s %s" % (hx(R + "/ok.conf"), hx("# c\na=1 # t\n b\n[S]\nk=\"q\"\n"))] + twice(["readfile 1 %s x3d x23" % hx(R + "/ok.conf"), "dumpx 1", "free 1"])})
     single.append({"name": "readfilecb-reject", "call": "read", "init": "null",
